@@ -20,6 +20,11 @@ pub(crate) fn validate_and_normalize_owned(name: String) -> Result<String, Inval
 pub(crate) fn validate_and_normalize_ref(
     name: impl AsRef<str>,
 ) -> Result<String, InvalidNameError> {
+    // Names can't be empty.
+    if name.as_ref().is_empty() {
+        return Err(InvalidNameError(name.as_ref().to_string()));
+    }
+
     let mut normalized = String::with_capacity(name.as_ref().len());
 
     let mut last = None;
@@ -54,6 +59,11 @@ pub(crate) fn validate_and_normalize_ref(
 
 /// Returns `true` if the name is already normalized.
 fn is_normalized(name: impl AsRef<str>) -> Result<bool, InvalidNameError> {
+    // Names can't be empty.
+    if name.as_ref().is_empty() {
+        return Err(InvalidNameError(name.as_ref().to_string()));
+    }
+
     let mut last = None;
     for char in name.as_ref().bytes() {
         match char {
